@@ -170,8 +170,13 @@ def build_tess(fs, sites, max_distance=75):
 
 
 # ---------------------------------------------------------------- skeleton image
-def build_skeleton(fs, data, mirror_y=False, reduce_amount=False):
+def build_skeleton(fs, data, mirror_y=False, reduce_amount=False, rescale=None, offset=None):
     sk = fs.skeleton.Skeleton(io.BytesIO(data), mirror_y=mirror_y)
+    kw = {}
     if reduce_amount:
-        return sk.create_lattice(reduce_amount=True)
-    return sk.create_lattice()
+        kw["reduce_amount"] = True
+    if rescale:
+        kw["rescale"] = list(rescale)
+    if offset:
+        kw["offset"] = list(offset)
+    return sk.create_lattice(**kw)
